@@ -223,6 +223,10 @@ class Prop:
                 for vd in ({}, {str(i): ["F", "T", "skip_keep", "select", "F", "stop"][i % 6] for i in ids},
                            {str(i): ["T", "skip", "F", "raise"][i % 4] for i in ids}, {str(i): ["F", "F", "T"][i % 3] for i in ids}):
                     ops.append(["filter", 0, p, vd])
+            for i in ids:                       # a raising key at every node: the invocations after it must not happen
+                for rev in (False, True):
+                    ops.append(["sort", 0, 0, {"tbl": {str(i): None, **{str(j): "abc"[(j * 5 // 2) % 3] for j in ids if j != i}}}, rev, True])
+                ops.append(["filter", 0, 0, {str(i): "raise", **{str(j): ["T", "F", "T", "skip_keep"][j % 4] for j in ids if j != i}}])
             yield dict(kind="order", univ=univ, setup=setup, ops=ops, label="call order")
         # (c2) call-index faults of calc_data_id in from_dict with the SAME object passed several times
         for shape in (((),), ((), ((),))) if quick else (((),), ((), ((),)), (((), ()),)):
